@@ -346,7 +346,7 @@ def _c19(ctx):
     r6.floor('loops', n6, 40)
     from .rules import caps
     cap, ncap = caps.rule_CAP1(ctx)
-    cap.floor('engine evaluations in GravityCircle', ncap, 3)
+    cap.floor('engine evaluations and guarded scalars in GravityCircle', ncap, 4)
     return [dsp, i1, cap] + _exc_rules(ctx, 'C19', with_lookup=False) + [r6, _x2v(ctx)]
 
 
@@ -397,11 +397,25 @@ def run(prop, tier):
     from . import controls
     ctx = Ctx(tier=tier)
     results = CHECKS[prop](ctx)
+    results += _lint(ctx, prop)
     rules = sorted({ALIAS.get(r.rule, r.rule) for r in results})
     _extra[prop] = {'positive_controls': controls.run_controls(rules)}
     if tier == 'thorough':
         results += thorough_extra(prop, ctx)
     return results
+
+
+def _lint(ctx, prop):
+    """generic contradiction rules over the anchor files of the property."""
+    from .rules import lint
+    files = lint.anchor_files(prop)
+    out = []
+    if files is None or files:
+        sw, nsw = lint.rule_SW1(ctx, files)
+        sw.floor('calls with named arguments in the anchor files', nsw, 1)
+        ov, nov = lint.rule_OV1(ctx, files)
+        out += [sw, ov]
+    return out
 
 
 def thorough_extra(prop, ctx):
@@ -410,7 +424,7 @@ def thorough_extra(prop, ctx):
     out = []
     for prec in (1, 3):
         c2 = Ctx(tier='thorough', precision=prec)
-        rs = CHECKS[prop](c2)
+        rs = CHECKS[prop](c2) + _lint(c2, prop)
         for r in rs:
             r.rule = '%s@p%d' % (r.rule, prec)
             r.title = '[GEOGRAPHICLIB_PRECISION=%d] %s' % (prec, r.title)
